@@ -67,6 +67,8 @@ type FuncContract struct {
 	ResultTypes []string
 	Mangled    string
 	Lemma      bool // ghost function defined in spec file; verified like code
+	Lets       [][2]string
+	Options    map[string]bool
 }
 
 type PkgContracts struct {
@@ -78,7 +80,7 @@ type PkgContracts struct {
 	Imports map[string]string // name -> path (union over package files)
 }
 
-var kwRe = regexp.MustCompile(`^(func|lemma|requires|ensures|canary|modifies|loop|inline|trusted|assumes|returns)\b`)
+var kwRe = regexp.MustCompile(`^(func|lemma|let|option|requires|ensures|canary|modifies|loop|inline|trusted|assumes|returns)\b`)
 
 func parseContractFile(path string, pc *PkgContracts) error {
 	data, err := os.ReadFile(path)
@@ -133,6 +135,17 @@ func parseContractFile(path string, pc *PkgContracts) error {
 				return fmt.Errorf("%s:%d: clause outside func block", path, i+1)
 			}
 			switch kw {
+			case "let":
+				parts := strings.SplitN(rest, "=", 2)
+				if len(parts) != 2 {
+					return fmt.Errorf("%s:%d: bad let", path, i+1)
+				}
+				cur.Lets = append(cur.Lets, [2]string{strings.TrimSpace(parts[0]), strings.TrimSpace(parts[1])})
+			case "option":
+				if cur.Options == nil {
+					cur.Options = map[string]bool{}
+				}
+				cur.Options[rest] = true
 			case "inline":
 				cur.Inline = true
 			case "trusted":
@@ -464,7 +477,9 @@ func genOverlay(pc *PkgContracts, files []*ast.File, specDir string) (string, er
 	var sb strings.Builder
 	var body strings.Builder
 	usedImports := map[string]bool{}
+	strLit := regexp.MustCompile(`"(\\.|[^"\\])*"`)
 	noteImports := func(s string) {
+		s = strLit.ReplaceAllString(s, `""`)
 		for name := range pc.Imports {
 			if regexp.MustCompile(`\b` + regexp.QuoteMeta(name) + `\.`).MatchString(s) {
 				usedImports[name] = true
@@ -585,7 +600,7 @@ func genOverlay(pc *PkgContracts, files []*ast.File, specDir string) (string, er
 			if withResults {
 				ex = append(ex, resDecl...)
 			}
-			e := rewriteExpr(c.Text)
+			e := rewriteExpr(applyLets(fc, c.Text))
 			noteImports(e)
 			fmt.Fprintf(&body, "//line %s:%d\nfunc %s(%s) bool { return %s }\n", fc.File, c.Line, name, sigIn(ex...), e)
 		}
@@ -600,7 +615,7 @@ func genOverlay(pc *PkgContracts, files []*ast.File, specDir string) (string, er
 		}
 		emitMod := func(c *Clause, name string, extra []string) {
 			c.Fn = name
-			it := c.Text
+			it := applyLets(fc, c.Text)
 			var e string
 			switch {
 			case strings.HasSuffix(it, "[:]"):
@@ -680,3 +695,13 @@ func genOverlay(pc *PkgContracts, files []*ast.File, specDir string) (string, er
 	return sb.String(), nil
 }
 
+
+// applyLets expands the function block's `let name = expr` macros (later lets may use earlier ones).
+func applyLets(fc *FuncContract, text string) string {
+	for i := len(fc.Lets) - 1; i >= 0; i-- {
+		l := fc.Lets[i]
+		re := regexp.MustCompile(`\b` + regexp.QuoteMeta(l[0]) + `\b`)
+		text = re.ReplaceAllLiteralString(text, "("+l[1]+")")
+	}
+	return text
+}
